@@ -1449,17 +1449,17 @@ func nsec3Proof(qname, zone string) *dns.Msg {
 			SignerName: zone, Signature: "AA=="}
 	}
 	rec := func(owner, next string, bitmap []uint16) *dns.NSEC3 {
-		return &dns.NSEC3{Hdr: dns.RR_Header{Name: owner + "." + zone, Rrtype: dns.TypeNSEC3, Class: dns.ClassINET, Ttl: 300}, Hash: dns.SHA1,
+		return &dns.NSEC3{Hdr: dns.RR_Header{Name: under(owner, zone), Rrtype: dns.TypeNSEC3, Class: dns.ClassINET, Ttl: 300}, Hash: dns.SHA1,
 			HashLength: 20, NextDomain: next, TypeBitMap: bitmap}
 	}
 	ce := dns.HashName(zone, dns.SHA1, 0, "")
 	nc := dns.HashName(nextCloser, dns.SHA1, 0, "")
-	wc := dns.HashName("*."+zone, dns.SHA1, 0, "")
+	wc := dns.HashName(under("*", zone), dns.SHA1, 0, "")
 	m := new(dns.Msg)
 	m.Response, m.RecursionAvailable, m.AuthenticatedData = true, true, true
 	m.Rcode = dns.RcodeNameError
 	m.Question = []dns.Question{{Name: qname, Qtype: dns.TypeA, Qclass: dns.ClassINET}}
-	soa := &dns.SOA{Hdr: dns.RR_Header{Name: zone, Rrtype: dns.TypeSOA, Class: dns.ClassINET, Ttl: 300}, Ns: "ns1." + zone, Mbox: "hostmaster." + zone,
+	soa := &dns.SOA{Hdr: dns.RR_Header{Name: zone, Rrtype: dns.TypeSOA, Class: dns.ClassINET, Ttl: 300}, Ns: under("ns1", zone), Mbox: under("hostmaster", zone),
 		Serial: 1, Refresh: 3600, Retry: 600, Expire: 86400, Minttl: 300}
 	m.Ns = append(m.Ns, soa, sigFor(zone, dns.TypeSOA))
 	for _, r := range []*dns.NSEC3{
@@ -1470,6 +1470,21 @@ func nsec3Proof(qname, zone string) *dns.Msg {
 		m.Ns = append(m.Ns, r, sigFor(r.Hdr.Name, dns.TypeNSEC3))
 	}
 	return m
+}
+
+// seedDenialAt installs the proofs in the zone `up` labels above each name's first label
+// kept... depth 0 = the root zone, which every name's suffix walk must reach.
+func seedDenialAt(names [3]string, zoneLabels int) bool {
+	ok := true
+	for p := 0; p < 3; p++ {
+		labels := dns.SplitDomainName(names[p])
+		zone := "."
+		if zoneLabels > 0 && zoneLabels < len(labels) {
+			zone = strings.ToLower(strings.Join(labels[len(labels)-zoneLabels:], ".") + ".")
+		}
+		ok = cache.VerifC05RecordDenialProof(live.Cache, nsec3Proof(names[p], zone), zone, true) && ok
+	}
+	return ok
 }
 
 // seedDenial installs an NSEC3 proof covering each of the three names.
